@@ -46,5 +46,8 @@ meta = dict(id=name, property=prop, source='independent sub-agent given only the
             needs=(re.search(r'(?is)(needs|manifest|trigger)[^\n]*\n(.*?)(\n#|\n\n\n|\Z)', notes).group(0)[:900] if re.search(r'(?i)(needs|manifest|trigger)', notes) else ''),
             what_i_ran=dict(confirm='tools/confirm_seed.sh patch.diff demo.diff ' + ' '.join(demo_args) + '  (scratch worktree /tmp/wt at /repo HEAD)', **confirmed),
             detection=det)
+first = json.load(open('/verif/seeded/first_results.json')).get(name)
+if first and first != det['result']:
+    meta['first_verdict_before_strengthening'] = first
 json.dump(meta, open(dst + '/meta.json', 'w'), indent=1)
 print(name, det['result'], det['lines'][:1])
